@@ -1647,6 +1647,41 @@ void group_type_at(const Req& rq, std::size_t depth, F&& f, Res& rs)
 }
 
 // ---------------------------------------------------------- message dispatch
+#ifdef WIRE_PRODUCER_ONLY
+// drivers of "later version" schemas bind the real encoder only (keeps their compile time small)
+template<class Msg, class TagId>
+void message_op(Ctx& cx, const SchemaShape& sh)
+{
+    using L = typename Msg::level;
+    using ByteT = WIRE_BYTE;
+    using MV = typename Msg::template view<ByteT>;
+    const Req& rq = *cx.rq;
+    Res& rs = *cx.rs;
+    if(rq.target != T_MESSAGE || rq.sub != M_ENCODE)
+    {
+        rs.unsupported = true;
+        return;
+    }
+    MV m{reinterpret_cast<ByteT*>(rq.p), rq.n};
+    const Node& root = *static_cast<const Node*>(rq.tree);
+    EncBudget bud{rq.arg2 ? (long long)rq.arg2 - 1 : -1, &rs};
+    bool whole = false;
+    if(bud.take())
+    {
+        sbepp::fill_message_header(m);
+        if(rq.arg & 1)
+        {
+            auto c = sbepp::init_cursor(m);
+            whole = encode_level_cursor<L>(cx, m, c, root, sh, bud);
+            rs.cursor_off = cx.off(c.pointer());
+        }
+        else
+            whole = encode_level<L>(cx, m, root, sh, bud);
+    }
+    rs.valid = whole;
+    if(whole) rs.size = sbepp::size_bytes(m);
+}
+#else
 template<class Msg, class TagId>
 void message_op(Ctx& cx, const SchemaShape& sh)
 {
@@ -1803,4 +1838,5 @@ void message_op(Ctx& cx, const SchemaShape& sh)
     default: rs.unsupported = true;
     }
 }
+#endif // WIRE_PRODUCER_ONLY
 } // namespace wire
